@@ -74,6 +74,9 @@ def gate_case(chk, case, store):
     for name, f in (("to_hs_from_choi", G.to_hs_from_choi), ("to_hs_from_choi_with_dict", G.to_hs_from_choi_with_dict),
                     ("to_hs_from_choi_with_sparsity", G.to_hs_from_choi_with_sparsity)):
         cmp(chk, name + ":" + sk, tag, try_call(chk, name + ":" + sk, tag, f, c, choi.copy()), hs)
+        # the result is a function of the VALUE of the argument, not of its memory layout (column-major copy, transposed view)
+        cmp(chk, name + ":fortran:" + sk, tag, try_call(chk, name + ":fortran:" + sk, tag, f, c, np.asfortranarray(choi)), hs)
+        cmp(chk, name + ":view:" + sk, tag, try_call(chk, name + ":view:" + sk, tag, f, c, choi.T.copy().T), hs)
     # computational-basis forms, process matrix
     cmp(chk, "convert_to_comp_basis:row:" + sk, tag, try_call(chk, "convert_to_comp_basis:row:" + sk, tag, g.convert_to_comp_basis, "row_major"), hsrow)
     cmp(chk, "convert_to_comp_basis:column:" + sk, tag, try_call(chk, "convert_to_comp_basis:column:" + sk, tag, g.convert_to_comp_basis, "column_major"), hscol)
@@ -131,6 +134,7 @@ def vec_case(chk, case):
     cmp(chk, "State.to_density_matrix_with_sparsity:" + sk, tag, try_call(chk, "State.to_density_matrix_with_sparsity:" + sk, tag, st.to_density_matrix_with_sparsity), M)
     cmp(chk, "to_density_matrix_from_vec:" + sk, tag, try_call(chk, "to_density_matrix_from_vec:" + sk, tag, S.to_density_matrix_from_vec, c, vec.copy()), M)
     cmp(chk, "to_vec_from_density_matrix_with_sparsity:" + sk, tag, try_call(chk, "to_vec_from_density_matrix_with_sparsity:" + sk, tag, S.to_vec_from_density_matrix_with_sparsity, c, M.copy()), vec)
+    cmp(chk, "to_vec_from_density_matrix_with_sparsity:fortran:" + sk, tag, try_call(chk, "to_vec_from_density_matrix_with_sparsity:fortran:" + sk, tag, S.to_vec_from_density_matrix_with_sparsity, c, np.asfortranarray(M)), vec)
     for para in (False, True):
         pk = "para" if para else "nopara"
         v2 = vec.copy()
